@@ -287,7 +287,7 @@ func orUnknown(s string) string {
 }
 
 func checkC19(c *ev.Ctx) {
-	c.Rule("complete product: 4 flags x touchPolicy{-1,0,1,2,3,4,7} x usage{0,1} x ver{0,1,2} x critical option{absent,nil map,empty,set,other keys} x principal lists{nil,[],[a],[a,b],[''], three with principals that already end in ':touch' / ':notouch'} x transID{'',hex,utf8}, plus undecodable KeyID catalogue (incl. every required member absent while another one is repeated), the nil certificate, 960 sequences on ONE certificate object whose critical options change between calls (every ordered pair of option states, new map / edited in place), and KeyIDs with one or two null-valued members (36 null sets x 7 bases) each classified right after each of 8 predecessors; each compared with a decision table written from the statement. non-trivial = decodable KeyID selecting a known type; distinct by (flags,touch,critical option)")
+	c.Rule("complete product: 4 flags x touchPolicy{-1,0,1,2,3,4,7} x usage{0,1} x ver{0,1,2} x critical option{absent,nil map,empty,set,other keys} x principal lists{nil,[],[a],[a,b],[''], three with principals that already end in ':touch' / ':notouch'} x transID{'',hex,utf8}, plus undecodable KeyID catalogue (incl. every required member absent while another one is repeated), the nil certificate, 960 sequences on ONE certificate object whose critical options change between calls (every ordered pair of option states, new map / edited in place), and KeyIDs with one or two null-valued members (36 null sets x 7 bases) each classified right after each of 8 predecessors; each compared with a decision table written from the statement; every type value (incl. unknown and out-of-range) is formatted with %v / %s / String() before the product (a caller's log line must not change later answers). non-trivial = decodable KeyID selecting a known type; distinct by (flags,touch,critical option)")
 	c.Assume("KeyID texts are built by the harness with encoding/json from a map, so 'decodes' is known by construction", "cert types are compared through their public label table")
 	if c.ReplayCase != nil {
 		var ru struct {
@@ -303,6 +303,19 @@ func checkC19(c *ev.Ctx) {
 		json.Unmarshal(c.ReplayCase, &k)
 		c19Run(c, k)
 		return
+	}
+	// a caller that formats certificate types for its logs (every value incl. unknown and out-of-range ones) before the
+	// classifications: formatting a type is a pure function and must not change what later certificates get
+	if p := ev.Guard(func() {
+		for t := -2; t <= 12; t++ {
+			ct := certutil.Type(t)
+			_ = fmt.Sprintf("%v|%s|%d", ct, ct, ct)
+			if st, ok := any(ct).(fmt.Stringer); ok {
+				_ = st.String()
+			}
+		}
+	}); p != "" {
+		c.Violation("C19:panic:"+ev.PanicSite(p), "formatting a certificate type crashed: "+p, nil)
 	}
 	bools := []bool{false, true}
 	// (the last three: principals that already end in a type label - the suffix is a function of the type alone)
